@@ -120,6 +120,71 @@ pub fn check_wellformed(ex: &mut Expat, out: &str, has_root: bool) -> Option<(St
     }
 }
 
+/// byte-level input through `transform_stream`: documents (real SVG, and svgdx documents holding a namespaced
+/// <svg> subtree) with bytes that are not UTF-8 placed inside a comment, a processing instruction, the DOCTYPE,
+/// character data, an attribute value or a CDATA section. Whatever succeeds must be well-formed UTF-8 XML.
+fn stream_bytes(rep: &mut Report, ex: &mut Expat, rng: &mut Rng, n: usize) {
+    let mut st = Stream::new(
+        "oracle/wellformed-bytes",
+        "oracle",
+        "byte input (transform_stream): real SVG documents and svgdx documents with an embedded namespaced <svg>, with one run of non-UTF-8 bytes (Latin-1 letters, 0xFF 0xFE, a truncated multi-byte sequence) inside a comment / PI / DOCTYPE / text / attribute value / CDATA section, in the prolog, in the pass-through region or in the processed part; a successful transform must write valid UTF-8 that the independent parser accepts; non-trivial = every case",
+    );
+    for _ in 0..n {
+        let bad: &[u8] = *rng.pick(&[&b"caf\xe9"[..], &b"\xff\xfe"[..], &b"\xf4"[..], &b"na\xefve \xe2\x82"[..]]);
+        let slot = rng.below(6);
+        let piece = |k: usize| -> Vec<u8> {
+            let mut v: Vec<u8> = vec![];
+            match k {
+                0 => { v.extend_from_slice(b"<!-- "); v.extend_from_slice(bad); v.extend_from_slice(b" -->"); }
+                1 => { v.extend_from_slice(b"<?pi "); v.extend_from_slice(bad); v.extend_from_slice(b"?>"); }
+                2 => { v.extend_from_slice(b"<desc>"); v.extend_from_slice(bad); v.extend_from_slice(b"</desc>"); }
+                3 => { v.extend_from_slice(b"<rect width=\"2\" height=\"2\" data-n=\""); v.extend_from_slice(bad); v.extend_from_slice(b"\"/>"); }
+                4 => { v.extend_from_slice(b"<style><![CDATA[ /* "); v.extend_from_slice(bad); v.extend_from_slice(b" */ ]]></style>"); }
+                _ => { v.extend_from_slice(b"<!DOCTYPE svg [ <!-- "); v.extend_from_slice(bad); v.extend_from_slice(b" --> ]>"); }
+            }
+            v
+        };
+        let mut doc: Vec<u8> = vec![];
+        let place = rng.below(4);
+        let p = piece(if place == 0 { *rng.pick(&[0usize, 1, 5]) } else { slot.min(4) });
+        match place {
+            // prolog of a real SVG document
+            0 => { doc.extend_from_slice(&p); doc.extend_from_slice(b"\n<svg xmlns=\"http://www.w3.org/2000/svg\"><rect width=\"3\" height=\"3\"/></svg>"); }
+            // inside a real SVG document
+            1 => { doc.extend_from_slice(b"<svg xmlns=\"http://www.w3.org/2000/svg\"><g>"); doc.extend_from_slice(&p); doc.extend_from_slice(b"</g></svg>"); }
+            // inside a namespaced <svg> embedded in an svgdx document
+            2 => { doc.extend_from_slice(b"<svg><rect wh=\"4\"/><svg xmlns=\"http://www.w3.org/2000/svg\" viewBox=\"0 0 3 3\">"); doc.extend_from_slice(&p); doc.extend_from_slice(b"</svg><circle r=\"2\"/></svg>"); }
+            // in the processed part of an svgdx document
+            _ => { doc.extend_from_slice(b"<svg><rect wh=\"4\"/>"); doc.extend_from_slice(&p); doc.extend_from_slice(b"<circle r=\"2\"/></svg>"); }
+        }
+        let shown = String::from_utf8_lossy(&doc).to_string();
+        st.case(&shown, true, || json!({"document_lossy": shown}));
+        st.tally(&format!("place={place}"));
+        let d2 = doc.clone();
+        let r = std::panic::catch_unwind(move || {
+            let mut out: Vec<u8> = vec![];
+            let mut inp = std::io::Cursor::new(d2);
+            svgdx::transform_stream(&mut inp, &mut out, &svgdx::TransformConfig::default()).map(|_| out).map_err(|e| format!("{e:?}"))
+        });
+        let hexin: String = doc.iter().map(|b| format!("{b:02x}")).collect();
+        match r {
+            Err(_) => rep.violation(Violation { kind: "oracle", stream: st.name.clone(), signature: "C02:panic".into(), what: "panic on byte input".into(), replay: json!({"input_hex": hexin}), confirmed_on_impl: true }),
+            Ok(Err(_)) => { st.tally("transform-error"); st.skipped += 1; }
+            Ok(Ok(out)) => {
+                let bad_out = match String::from_utf8(out.clone()) {
+                    Err(_) => Some("the output is not valid UTF-8".to_string()),
+                    Ok(_) => match ex.parse(&out) { Err(e) => Some(format!("independent parser rejects the output: {e}")), Ok(_) => None },
+                };
+                match bad_out {
+                    None => st.exact += 1,
+                    Some(what) => rep.violation(Violation { kind: "oracle", stream: st.name.clone(), signature: "C02:bytes".into(), what, replay: json!({"input_hex": hexin, "input_lossy": shown}), confirmed_on_impl: true }),
+                }
+            }
+        }
+    }
+    rep.streams.push(st);
+}
+
 pub fn run_c02(rep: &mut Report, tier: &str, seed: u64) -> Result<(), String> {
     let mut rng = Rng::new(seed);
     let mut drv = Driver::start()?;
@@ -147,6 +212,7 @@ pub fn run_c02(rep: &mut Report, tier: &str, seed: u64) -> Result<(), String> {
         }
     }
     rep.streams.push(st);
+    stream_bytes(rep, &mut ex, &mut rng.fork(), nd / 4);
     corpus(rep, &mut ex, "C02");
     Ok(())
 }
@@ -239,6 +305,23 @@ pub fn run_c05(rep: &mut Report, tier: &str, seed: u64) -> Result<(), String> {
 pub fn replay(rep: &mut Report, prop: &str, v: &serde_json::Value) {
     let mut st = Stream::new("replay", "oracle", "one replay file judged against the implementation (default configuration)");
     st.case("replay", true, || v.clone());
+    // byte-level replays (oracle/wellformed-bytes): the input as hex, through transform_stream
+    if let Some(hx) = v.get("input_hex").and_then(|x| x.as_str()) {
+        let bytes: Vec<u8> = (0..hx.len() / 2).filter_map(|i| u8::from_str_radix(&hx[2 * i..2 * i + 2], 16).ok()).collect();
+        let mut ex = match Expat::start() { Ok(e) => e, Err(e) => { rep.notes.push(format!("HARNESS-ERROR: {e}")); rep.streams.push(st); return; } };
+        let mut out: Vec<u8> = vec![];
+        let mut inp = std::io::Cursor::new(bytes);
+        match svgdx::transform_stream(&mut inp, &mut out, &default_cfg()) {
+            Err(_) => st.exact += 1,
+            Ok(()) => {
+                if String::from_utf8(out.clone()).is_err() || ex.parse(&out).is_err() {
+                    rep.violation(Violation { kind: "oracle", stream: "replay".into(), signature: format!("{prop}:replay"), what: "the transform succeeds and the output is not well-formed UTF-8 XML".into(), replay: v.clone(), confirmed_on_impl: true });
+                } else { st.exact += 1; }
+            }
+        }
+        rep.streams.push(st);
+        return;
+    }
     let doc = v.get("input").and_then(|x| x.as_str()).unwrap_or("");
     let has_root = v.get("has_root").and_then(|x| x.as_bool()).unwrap_or(doc.trim_start().starts_with("<svg") || doc.trim_start().starts_with("<?xml"));
     let mut ex = match Expat::start() { Ok(e) => e, Err(e) => { rep.notes.push(format!("HARNESS-ERROR: {e}")); rep.streams.push(st); return; } };
